@@ -106,6 +106,21 @@ class Oracle:
         for o in outs:
             if o["o"] == "raised" and o["k"].startswith("python:"):
                 self.fail("unexpected-exception", "an unmodelled exception left the access point: %s" % o["k"], line)
+        # an invoke ID is ONE OCTET: in every live transaction and in every header emitted
+        for side in ("cl", "sv"):
+            for d in cur[side]:
+                if not (0 <= d[1] <= 255):
+                    self.fail("invoke-id-range", "live %s transaction toward peer %d has invoke ID %r, which is not an octet" % (
+                        "client" if side == "cl" else "server", d[0], d[1]), line)
+        inv_at = {0: 6, 2: 1, 3: 3, 4: 3, 5: 1, 6: 1, 7: 2}
+        for o in outs:
+            if o["o"] in ("send", "ind", "conf"):
+                at = inv_at.get(o["h"][0])
+                if at is not None and o["h"][at] is not None and not (0 <= o["h"][at] <= 255):
+                    self.fail("invoke-id-range", "%s carries invoke ID %r, which is not an octet (the header cannot be encoded)" % (
+                        {"send": "frame", "ind": "indication", "conf": "confirmation"}[o["o"]], o["h"][at]), line)
+            if o["o"] == "send" and not isinstance(o.get("len"), int):
+                self.fail("unencodable-frame", "a frame handed to the network cannot be encoded (%s): %r" % (o.get("len"), o["h"]), line)
         for side in ("cl", "sv"):
             ks = keyed(cur[side])
             if len(set(ks)) != len(ks):
